@@ -95,12 +95,25 @@ class Gen:
                 if st == "nobias2":
                     bb = None
                 self.mark("tied_weights")
+                wexpr = None
+            elif self.vocab == "quant" and self.ok("wexpr") and r.random() < 0.2:
+                # the weight operand is an expression of a parameter (transposed / scaled /
+                # sliced), not the parameter itself: what gets quantised is the operand
+                wexpr = r.choice(["t", "scaled", "slice"])
+                w = b.param({"t": [din, dout], "scaled": [dout, din], "slice": [dout + 2, din]}[wexpr], din ** -0.5)
+                has_b = st != "nobias2" and r.random() < 0.7
+                bb = b.param([dout], 0.1) if has_b else None
+                self.mark("wexpr")
             else:
+                wexpr = None
                 w = b.param([dout, din], din ** -0.5)
                 has_b = st != "nobias2" and r.random() < 0.7
                 bb = b.param([dout], 0.1) if has_b else None
                 self.lin_params.append((w, bb, din, dout))
-            out = b.op("linear", [cur], oshape, w=w, b=bb, style=st)
+            if wexpr:
+                out = b.op("linear", [cur], oshape, w=w, b=bb, style=st, wexpr=wexpr)
+            else:
+                out = b.op("linear", [cur], oshape, w=w, b=bb, style=st)
         self.fresh.add(out)
         return out
 
